@@ -19,6 +19,7 @@ RULE = ("C14's frames without exact duplicates among the candidates, plus exactl
 ASSUMPTIONS = [
     "when two candidates' recomputed measures tie within 1e-9 (frequent with a binary target: Kruskal-Wallis H only depends on a rank sum) the order and the n_best cut are an unspecified tie-break: such blocks are not compared, and counted",
     "a block holding a pair of candidates whose mutual association is within 1e-9 of thresh_corr is not compared (the filter's strict comparison is then decided by float rounding)",
+    "with a user-supplied outlier measure in front (thresh_iqr / thresh_zscore) a monotone feature may legitimately fail that threshold: the 'perfect feature is returned' clause is not applied to the quantitative block then",
     "the perfect feature is planted alone (no other copy / monotone transform of the target among the candidates) and n_best >= 1",
 ]
 _S = "AutoCarver/selectors/"
@@ -78,11 +79,22 @@ def run_case(tier, seed, i):
     n_best = int(rng.integers(1, max(2, max(len(quant), len(qual)))))
     tc = float(gen.pick(rng, [0.6, 0.9, 1.0]))
     kw = {"thresh_corr": tc}
+    outlier_filter = False
+    if selector_kind == "classification" and rng.random() < 0.3:
+        # user-supplied measure list: an outlier measure (with its threshold) in front of the association measure
+        from AutoCarver.selectors import iqr_measure, kruskal_measure, zscore_measure
+        if rng.random() < 0.6:
+            kw["quantitative_measures"] = [iqr_measure, kruskal_measure]
+            kw["thresh_iqr"] = gen.pick(rng, [0.02, 0.05, 0.1, 0.2])
+        else:
+            kw["quantitative_measures"] = [zscore_measure, kruskal_measure]
+            kw["thresh_zscore"] = gen.pick(rng, [0.01, 0.02])
+        outlier_filter = True
     cls = ClassificationSelector if selector_kind == "classification" else RegressionSelector
     names = {"float": "kruskal_measure" if selector_kind == "classification" else "distance_measure",
              "str": "tschuprowt_measure" if selector_kind == "classification" else "kruskal_measure"}
     counters = {"pairs_compared": 0, "perfect_features_planted": int(perfect is not None), "tie_ambiguous_blocks": 0}
-    tags = [selector_kind, target_kind]
+    tags = [selector_kind, target_kind] + (["outlier_measure_first"] if outlier_filter else [])
     sample = {"selector": selector_kind, "target": target_kind, "n": n, "n_best": n_best, "thresh_corr": tc, "column_kinds": kinds, "perfect": perfect}
     key = common.frame_fingerprint(X)[:12] + f"{selector_kind}{n_best}{tc}"
     base, e = common.guarded(do_select, cls, X, y, quant, qual, n_best, kw)
@@ -110,7 +122,7 @@ def run_case(tier, seed, i):
         on_threshold[dtype] = tc < 1 and any(abs(c14.pair_assoc(fname, X, a, b) - tc) <= 1e-9 for k, a in enumerate(feats) for b in feats[k + 1:])
         if on_threshold[dtype]:
             counters["threshold_ambiguous_blocks"] = counters.get("threshold_ambiguous_blocks", 0) + 1
-    if perfect is not None:
+    if perfect is not None and not (outlier_filter and perfect[1] == "float"):
         f, dtype, form = perfect
         if f not in base:
             viols.append({"kind": "perfect_feature_not_returned", "dtype": dtype, "selector": selector_kind, "form": form,
@@ -134,12 +146,12 @@ def run_case(tier, seed, i):
 
     # (a) negate one quantitative feature
     if quant:
-        f = gen.pick(rng, quant)
-        X2 = X.copy()
-        X2[f] = -X2[f]
-        r, e = common.guarded(do_select, cls, X2, y, quant, qual, n_best, kw)
-        if e is None:
-            compare(f"negate", r)
+        for f in [quant[k] for k in rng.permutation(len(quant))[:3]]:
+            X2 = X.copy()
+            X2[f] = -X2[f]
+            r, e = common.guarded(do_select, cls, X2, y, quant, qual, n_best, kw)
+            if e is None:
+                compare("negate", r)
         # (b) rescale all quantitative features by positive powers of two (exact)
         X3 = X.copy()
         for g in quant:
